@@ -174,25 +174,25 @@ func main() {
 		"collections never hold nil members (the quantifier excludes them)",
 	}
 	k, m := ev.Pick(r, 2, 3), 3
-	mkGen := func() (*gg.Gen, func()) {
-		next, reset := gg.Cyclic(coords)
+	mkGen := func() (*gg.Gen, func(int)) {
+		next, reset := gg.CyclicAt(coords)
 		return &gg.Gen{K: k, M: m, Depth: 3, NilSlice: true, SortBound: true, Next: next}, reset
 	}
 	type loc struct {
 		g     *gg.Gen
-		reset func()
+		reset func(int)
 	}
 	newLocal := func(int) interface{} { g, rs := mkGen(); return &loc{g, rs} }
 	r.Explore("values-noncollection", fmt.Sprintf("full product of the 8 non-collection kinds, k=%d m=%d", k, m), mc.Opts{MaxDev: -1, Split: 3, NewLocal: newLocal}, func(c *mc.Ctx) {
 		l := c.Local().(*loc)
-		l.reset()
+		l.reset(c.Choose((len(coords) + 1) / 2))
 		kind := c.Choose(gg.KCollection)
 		checkValue(c, l.g.Kind(c, kind, 0, true))
 	})
 	dev := ev.Pick(r, 6, 7)
 	r.Explore("values-collections", fmt.Sprintf("collections nested to depth 3, members of all kinds, all shapes within %d deviations from the simplest", dev), mc.Opts{MaxDev: dev, Split: 3, NewLocal: newLocal}, func(c *mc.Ctx) {
 		l := c.Local().(*loc)
-		l.reset()
+		l.reset(c.Choose((len(coords) + 1) / 2))
 		checkValue(c, l.g.Kind(c, gg.KCollection, 0, true))
 	})
 
